@@ -298,6 +298,14 @@ class Check:
         self._replay_n = 0
 
     # ---- proof obligations
+    def proofs(self):
+        """build + audit every (module, theorems) group registered for this property in registry.json"""
+        reg = json.load(open(os.path.join(VERIF, "registry.json"))).get(self.pid, [])
+        failed = []
+        for grp in reg:
+            failed += self.proof_part(grp["module"], grp["theorems"])
+        return failed
+
     def proof_part(self, module, theorems, extra_targets=()):
         """Build the property module, audit axioms; records obligations/discharged.
         Returns list of names that failed."""
